@@ -230,7 +230,12 @@ func (l *Ledger) GetTransactionWithVolumes(ctx context.Context, query ledgerstor
 func (l *Ledger) CreateTransaction(ctx context.Context, parameters command.Parameters, data ledger.RunScript) (*ledger.Transaction, error) {
 	l.B.rec("CreateTransaction", l.Name, fmt.Sprintf("dry=%v ik=%s ref=%s", parameters.DryRun, parameters.IdempotencyKey, data.Reference))
 	if l.W != nil {
-		return l.W.CreateTransaction(ctx, parameters, data)
+		// (errors of the engine reach the handlers wrapped, as engine.Ledger wraps them)
+		tx, err := l.W.CreateTransaction(ctx, parameters, data)
+		if err != nil {
+			return nil, engine.NewCommandError(err)
+		}
+		return tx, nil
 	}
 	return ledger.NewTransaction(), nil
 }
@@ -238,7 +243,11 @@ func (l *Ledger) CreateTransaction(ctx context.Context, parameters command.Param
 func (l *Ledger) RevertTransaction(ctx context.Context, parameters command.Parameters, id *big.Int, force bool) (*ledger.Transaction, error) {
 	l.B.rec("RevertTransaction", l.Name, fmt.Sprintf("dry=%v ik=%s id=%v force=%v", parameters.DryRun, parameters.IdempotencyKey, id, force))
 	if l.W != nil {
-		return l.W.RevertTransaction(ctx, parameters, id, force)
+		tx, err := l.W.RevertTransaction(ctx, parameters, id, force)
+		if err != nil {
+			return nil, engine.NewCommandError(err)
+		}
+		return tx, nil
 	}
 	return ledger.NewTransaction(), nil
 }
@@ -246,7 +255,7 @@ func (l *Ledger) RevertTransaction(ctx context.Context, parameters command.Param
 func (l *Ledger) SaveMeta(ctx context.Context, parameters command.Parameters, targetType string, targetID any, m metadata.Metadata) error {
 	l.B.rec("SaveMeta", l.Name, fmt.Sprintf("dry=%v ik=%s %s %v", parameters.DryRun, parameters.IdempotencyKey, targetType, targetID))
 	if l.W != nil {
-		return l.W.SaveMeta(ctx, parameters, targetType, targetID, m)
+		return engine.NewCommandError(l.W.SaveMeta(ctx, parameters, targetType, targetID, m))
 	}
 	return nil
 }
@@ -254,7 +263,7 @@ func (l *Ledger) SaveMeta(ctx context.Context, parameters command.Parameters, ta
 func (l *Ledger) DeleteMetadata(ctx context.Context, parameters command.Parameters, targetType string, targetID any, key string) error {
 	l.B.rec("DeleteMetadata", l.Name, fmt.Sprintf("dry=%v ik=%s %s %v %s", parameters.DryRun, parameters.IdempotencyKey, targetType, targetID, key))
 	if l.W != nil {
-		return l.W.DeleteMetadata(ctx, parameters, targetType, targetID, key)
+		return engine.NewCommandError(l.W.DeleteMetadata(ctx, parameters, targetType, targetID, key))
 	}
 	return nil
 }
